@@ -220,6 +220,12 @@ def tasks(tier):
         chunk = masks44[i:i + 2]
         add([["holey", 4, 4, "tri", "flat", m] for m in chunk], feats=("none", "border"), smax_=2)
         add([["holey", 4, 4, "tri", "fold", m] for m in chunk], feats=("detect",), smax_=2)
+    if not thorough:      # three border loops (pair of pants) in the quick tier too
+        gp, gf = F.grid(4, 4, "tri")
+        pants = [m for m in _holey_masks(4, 4, "tri", 2) if bin(m).count("1") == 2
+                 and len(F.border_loops(_remove_faces(gp, gf, m)[1])) == 3][:4]
+        add([["holey", 4, 4, "tri", "flat", m] for m in pants[:2]], feats=("none",), smax_=2)
+        add([["holey", 4, 4, "tri", "fold", m] for m in pants[2:]], feats=("detect",), smax_=2)
     if thorough:
         for m in _holey_masks(4, 4, "tri", 1):
             add([["holey", 4, 4, "tri", "flat", m]], feats=("none",), smax_=3, parts=2)
@@ -574,8 +580,8 @@ class Session:
     # -------------------------------------------------------------------------------- input class of a failure
     def classify(self, spec, geom, feat, S, fail, res, first):
         """Coarse class of a failing input = class of a *minimal failing configuration* derived from it by re-running the
-        real code: singular vertices are dropped one at a time while the same clause keeps failing; the geometry alphabet
-        and the feature mode are switched to see whether the failure depends on them. Returns (class, derivation)."""
+        real code: singular vertices are dropped one at a time while the same clause keeps failing, and the geometry alphabet
+        is switched to see whether the failure depends on it. Returns (class, derivation)."""
         key = (repr(spec), geom, feat, first is not None, fail["sub"], fail["kind"])
         known = self.minimal.setdefault(key, [])
         for smin, cls, why in known:
@@ -590,11 +596,7 @@ class Session:
                 cur = trial
         other = "generic" if geom == "ties" else "ties"
         gcls = "geom=any" if same(self.execute(spec, other, feat, cur, first)) else f"geom={geom}-only"
-        if res["fcls"] == "feat=crease":
-            fcls = "feat=any" if same(self.execute(spec, geom, "none", cur, first)) else "feat=crease-only"
-        else:
-            r = self.execute(spec, geom, "detect", cur, first)
-            fcls = "feat=plain-only" if (r["fcls"] == "feat=crease" and not same(r)) else "feat=any"
+        fcls = "feat=crease" if res["fcls"] == "feat=crease" else "feat=off"      # off = no detector or border-only detector
         cls = f"{T.topo_coarse()}|{T.sing_class(cur)}|{gcls}|{fcls}"
         if first is not None:
             # a failure that a fresh mesh shows as well is not about the second run: the main tasks report it
